@@ -157,6 +157,12 @@ def b64_vectors(rng, thorough):
     for t in (b"====", b"A===", b"=AAA", b"A=AA", b"AA=A", b"==AA", b"AAAA====", b"AAA=AAAA", b"AA==AAAA", b"=", b"=="):
         L.append("B64DEC %s %d 0 %d" % (hx(t), 3 * len(t) // 4 + 3, CANARY))
         L.append("B64DLEN %s" % hx(t))
+    # the appending encoder on buffers that already hold more than 4 GiB (address space only): at, just below and across the
+    # 2^32 offset, every input length mod 3, exact fit / one short / spare room
+    for k, dd in [(1, 0), (1, 5), (1, 100), (1, 4095), (0, 2 ** 32 - 4), (0, 2 ** 32 - 1), (2, 7), (3, 4000)]:
+        for n in ((0, 1, 2, 3, 4, 6, 7, 48, 100) if thorough else rng.sample([1, 2, 3, 4, 6, 7, 48, 100], 3)):
+            d = bytes(rng.getrandbits(8) for _ in range(n))
+            L.append("B64ENCAT %s %d %d %d" % (hx(d), k, dd, rng.choice([0, 0, 1, 9, -1 if n else 0])))
     # seeded random: valid round trips of random length and randomly damaged texts
     for _ in range(250 if not thorough else 6000):
         n = rng.choice([rng.randint(0, 12), rng.randint(0, 100), rng.randint(90, 220)])
